@@ -826,6 +826,49 @@ func checkSizer(c *core.Ctx) {
 		})
 	})
 	if !found {
+		// the sizer as a method whose receiver carries the flag (a method value instead of a closure)
+		core.AllFuncDecls(bp, func(fd *ast.FuncDecl) {
+			if fd.Recv == nil || fd.Type.Results == nil || fd.Type.Results.NumFields() != 3 || fd.Type.Params.NumFields() != 2 || found {
+				return
+			}
+			rt := info.TypeOf(fd.Recv.List[0].Type)
+			st, _ := derefStructT(rt).Underlying().(*types.Struct)
+			if st == nil {
+				return
+			}
+			var flag types.Object
+			nb := 0
+			for i := 0; i < st.NumFields(); i++ {
+				if basicKind(st.Field(i).Type()) == types.Bool {
+					flag = st.Field(i)
+					nb++
+				}
+			}
+			if nb != 1 {
+				return
+			}
+			found = true
+			var resNames []types.Object
+			for _, f := range fd.Type.Results.List {
+				for _, nm := range f.Names {
+					resNames = append(resNames, info.Defs[nm])
+				}
+			}
+			ni := &core.NonInterf{Info: info, Flag: flag, ResultNames: resNames}
+			ni.Run(fd.Body)
+			if len(ni.Unsupported) > 0 {
+				c.Undecided("R14.3", "sizer non-interference in "+fd.Name.Name, fd.Pos(), "constructs not followed: "+strings.Join(ni.Unsupported, "; "))
+				return
+			}
+			conf := ni.Conflicts([]int{0, 2}, []string{"min", "max"})
+			conf = append(conf, ni.NotAmong(1, []int{0, 2}, []string{"capacity", "the returned min", "the returned max (so Memory.Validate can reject the module only with the flag set)"})...)
+			c.Count("sizer_paths", ni.PathCount())
+			c.Check(len(conf) == 0, "R14.3", "sizer non-interference in newMemorySizer", fd.Pos(),
+				fmt.Sprintf("%d syntactic paths; min and max are the same expression with and without the capacity flag", ni.PathCount()),
+				"the capacity-from-max flag changes a limit: "+strings.Join(conf, "; "))
+		})
+	}
+	if !found {
 		c.Undecided("R14.3", "sizer", 0, "no sizer closure (bool flag → func(min, *max) (min, cap, max)) found")
 	}
 	// decodeMemory validates: the function calling the sizer returns mem.Validate(limit)
